@@ -175,7 +175,7 @@ def jobs(tier, seed):
         rest.sort(key=lambda t: (0 if all(m in red for m in t[1]) else 1 if not heavy(t[1]) else 2, (t[0] + seed) % 6 != 0, t[0]))
         for n, (i, sk) in enumerate(rest):
             j = l3job(sk, True)
-            j["max_wall_s"] = 420  # best effort: a skeleton that is not finished by then is reported as incomplete
+            j["max_wall_s"] = 300  # best effort: a skeleton that is not finished by then is reported as incomplete
             j["cost"] = 1000000 - n  # keep this order
             out.append(j)
         for n, sk in enumerate(skeletons(REDUCED, 4)):
@@ -183,7 +183,7 @@ def jobs(tier, seed):
     return out
 
 
-BUDGET = {"quick": None, "thorough": 22 * 60}
+BUDGET = {"quick": None, "thorough": 12 * 60}
 
 
 def classify(job, label, model):
